@@ -6,17 +6,20 @@
 //
 //	exchange  Y:<id>:<G|P|H>:<rc>:<v10>:<outcome>:<status>:<framing>:<bodylen>:<sc>:<H>
 //	  id        marker (request path /r<id>, response header X-Ex: <id>)
-//	  G|P|H     GET / POST with a 5+ byte body / HEAD
+//	  G|P|H|C   GET / POST with a 5+ byte body / HEAD / CONNECT (no MITM; after a 200 the client sends GET /r<id> through the tunnel)
 //	  rc        1: the client asks to close (Connection: close, or HTTP/1.0 without keep-alive)
 //	  v10       1: the request is HTTP/1.0
-//	  outcome   ok | ref (dial refused) | cut<k> (origin writes the first k bytes of its response, then closes) | gar<n> (non-HTTP bytes)
+//	  outcome   ok | ref (dial refused) | tmo (dial times out) | dns (no such host) |
+//	            cut<k> (origin writes the first k bytes of its response, then closes) | gar<n> (non-HTTP bytes)
 //	  framing   c | k<s1>.<s2>... (chunk sizes 1..15, cycled) | x (close-delimited) | n (no body: 204/304/HEAD)
 //	  sc        1: the origin's response says Connection: close
 //	  H         length of the response head in bytes (derived; checked on replay)
 //
 //	MAL <hex client bytes> <0|1 close after writing>   malformed client stream, followed by a liveness probe
 //
-// OUT tokens:  R:<status>:<X-Ex values>:<modifier stamp>:<#Warning>:<framing seen>:<hex body>:<ok|incomplete|err-..>
+// OUT tokens:  R:<status>:<X-Ex values>:<modifier stamp>:<Warning values hex,hex.. or ->:<framing seen>:<hex body>:<ok|incomplete|err-..>
+//
+//	T:<status>:<X-Ex values>:<hex body>:<state>   the origin's answer read through an established CONNECT tunnel
 //
 //	END:<open|closed|stuck-..>   DEAD:<hex>  (the proxy process exited)   ALIVE (liveness probe after the case succeeded)
 package main
@@ -61,6 +64,18 @@ func proxyChild() {
 	}
 	p := martian.NewProxy()
 	p.SetResponseModifier(stamp{})
+	// dial outcomes that need no network: an already expired deadline gives a
+	// net.Error with Timeout() == true, a DNSError stands for an unknown host
+	d := &net.Dialer{Timeout: 30 * time.Second, KeepAlive: 30 * time.Second}
+	p.SetDial(func(network, addr string) (net.Conn, error) {
+		switch {
+		case strings.HasPrefix(addr, "timeout.invalid:"):
+			return (&net.Dialer{Deadline: time.Unix(1, 0)}).Dial("tcp", "127.0.0.1:9")
+		case strings.HasPrefix(addr, "nohost.invalid:"):
+			return nil, &net.OpError{Op: "dial", Net: network, Err: &net.DNSError{Err: "no such host", Name: "nohost.invalid", IsNotFound: true}}
+		}
+		return d.Dial(network, addr)
+	})
 	fmt.Println("ADDR", l.Addr().String())
 	go func() { // exit when the parent goes away
 		io.Copy(io.Discard, os.Stdin)
@@ -182,6 +197,15 @@ var garbage = [][]byte{
 	[]byte("\x00\xff\xfe\x80 random \x01\x02 bytes \r\n\r\n more"),
 	[]byte("ICY 200 OK\r\n\r\n"),
 	[]byte("HTTP/1.1 200 OK\r\nTransfer-Encoding: bogus\r\n\r\nabc"),
+	// bytes that Go's transport echoes into its error text: quotes, backslashes, control bytes
+	[]byte("HTTP/1.1 200 OK\r\nX-\x00Nul\x01\x7f: v\r\n\r\n"),
+	[]byte("HTTP/1.1 2\"0\\0 OK\r\n\r\n"),
+	[]byte("HT\"TP\\/1.1 200 OK\r\n\r\n"),
+	[]byte("HTTP/1.1 200 OK\r\nContent-Length: \"1\\2\"\r\n\r\n"),
+	[]byte("\"quoted\" \\back\\ \x01\x02\x7f\x00 end\r\n\r\n"),
+	[]byte("HTTP/1.1 200 OK\r\nTransfer-Encoding: \"x\\y\"\r\n\r\nabc"),
+	[]byte("HTTP/1.1 200 OK\r\nBad\rLine\x0b: \"x\"\r\n\r\n"),
+	[]byte("HTTP/1.1 200 \"OK\"\r\nno colon \"here\" \\ \x1f\r\n\r\n"),
 }
 
 func (e *exch) body() []byte {
@@ -260,7 +284,7 @@ func parseExch(t string) (*exch, error) {
 		return nil, err
 	}
 	switch {
-	case f[5] == "ok" || f[5] == "ref":
+	case f[5] == "ok" || f[5] == "ref" || f[5] == "tmo" || f[5] == "dns":
 		e.Outcome = f[5]
 	case strings.HasPrefix(f[5], "cut") || strings.HasPrefix(f[5], "gar"):
 		e.Outcome = f[5][:3]
@@ -319,8 +343,16 @@ func makeDead() {
 
 func (e *exch) request(origin string) []byte {
 	target := origin
-	if e.Outcome == "ref" {
+	switch e.Outcome {
+	case "ref":
 		target = deadAddr
+	case "tmo":
+		target = "timeout.invalid:80"
+	case "dns":
+		target = "nohost.invalid:80"
+	}
+	if e.Meth == 'C' {
+		return []byte(fmt.Sprintf("CONNECT %s HTTP/1.1\r\nHost: %s\r\nUser-Agent: verif\r\n\r\n", target, target))
 	}
 	m := map[byte]string{'G': "GET", 'P': "POST", 'H': "HEAD"}[e.Meth]
 	v := "1.1"
@@ -356,7 +388,9 @@ func idleNow() time.Duration {
 	return idle
 }
 
-func methodName(m byte) string { return map[byte]string{'G': "GET", 'P': "POST", 'H': "HEAD"}[m] }
+func methodName(m byte) string {
+	return map[byte]string{'G': "GET", 'P': "POST", 'H': "HEAD", 'C': "CONNECT"}[m]
+}
 
 func fmtResp(m *p1x.Msg) string {
 	st := "ok"
@@ -381,7 +415,15 @@ func fmtResp(m *p1x.Msg) string {
 	if len(body) > 6000 {
 		body = body[:6000]
 	}
-	return fmt.Sprintf("R:%d:%s:%s:%d:%s:%s:%s", m.Status, xex, stampv, len(p1x.Vals(m.Hdrs, "Warning")), fr, hx.Hex(body)[1:], st)
+	var ws []string
+	for _, w := range p1x.Vals(m.Hdrs, "Warning") {
+		ws = append(ws, hx.HexS(w)[1:])
+	}
+	warn := strings.Join(ws, ",")
+	if len(ws) == 0 {
+		warn = "-"
+	}
+	return fmt.Sprintf("R:%d:%s:%s:%s:%s:%s:%s", m.Status, xex, stampv, warn, fr, hx.Hex(body)[1:], st)
 }
 
 func runUF(in []string) (out []string) {
@@ -455,6 +497,29 @@ func runUF(in []string) (out []string) {
 		}
 		return m.Complete
 	}
+	// tunnel: after a 200 to CONNECT the connection is a blind tunnel to the
+	// origin; one request through it, then the client hangs up.
+	tunnel := func(e *exch) {
+		conn.SetDeadline(time.Now().Add(idleNow()))
+		fmt.Fprintf(conn, "GET /r%d HTTP/1.1\r\nHost: %s\r\nAccept-Encoding: identity\r\n\r\n", e.ID, origin.Addr)
+		m := p1x.ReadResponse(br, "GET", true)
+		if m == nil {
+			out = append(out, "T:0:-::closed")
+		} else {
+			st := "ok"
+			if m.Err != "" {
+				st = "err-" + m.Err
+			} else if !m.Complete {
+				st = "incomplete"
+			}
+			xex := strings.Join(p1x.Vals(m.Hdrs, "X-Ex"), ".")
+			if xex == "" {
+				xex = "-"
+			}
+			out = append(out, fmt.Sprintf("T:%d:%s:%s:%s", m.Status, xex, hx.Hex(m.Body)[1:], st))
+		}
+		end = "tunnel"
+	}
 	if mode == "pipe" {
 		var all bytes.Buffer
 		for _, e := range exs {
@@ -463,7 +528,12 @@ func runUF(in []string) (out []string) {
 		go conn.Write(all.Bytes())
 		for _, e := range exs {
 			conn.SetReadDeadline(time.Now().Add(idleNow()))
-			if !record(p1x.ReadResponse(br, methodName(e.Meth), true)) {
+			m := p1x.ReadResponse(br, methodName(e.Meth), true)
+			if !record(m) {
+				break
+			}
+			if e.Meth == 'C' && m.Status/100 == 2 {
+				tunnel(e)
 				break
 			}
 		}
@@ -472,7 +542,12 @@ func runUF(in []string) (out []string) {
 			conn.SetWriteDeadline(time.Now().Add(30 * time.Second))
 			conn.Write(e.request(origin.Addr))
 			conn.SetReadDeadline(time.Now().Add(idleNow()))
-			if !record(p1x.ReadResponse(br, methodName(e.Meth), true)) {
+			m := p1x.ReadResponse(br, methodName(e.Meth), true)
+			if !record(m) {
+				break
+			}
+			if e.Meth == 'C' && m.Status/100 == 2 {
+				tunnel(e)
 				break
 			}
 		}
